@@ -1717,7 +1717,7 @@ macro_rules! fatal_error {
     ($message:expr, $($arg:tt)*) => {{
         #[cfg(ax_verif)]
         {
-            return Err(AxError::from(format!($message, $($arg)*)).into());
+            return Err(AxError::from(format!("[fatal] {}", format!($message, $($arg)*))).into());
         }
 
         #[cfg(all(target_arch = "wasm32", not(test)))]
@@ -1734,7 +1734,7 @@ macro_rules! fatal_error {
     ($message:expr) => {{
         #[cfg(ax_verif)]
         {
-            return Err(AxError::from($message).into());
+            return Err(AxError::from(format!("[fatal] {}", $message)).into());
         }
 
         #[cfg(all(target_arch = "wasm32", not(test)))]
